@@ -87,6 +87,7 @@ type coreBench struct {
 	closeAttaching []bool // plan: k-th Attaching callback closes the pipe
 	closeAttached  []bool
 	refusePlan     []bool
+	slowDetached   bool
 	nAttaching int
 	nAttached  int
 	dials      []dialEv
@@ -141,6 +142,15 @@ func (b *coreBench) hook(ev mangos.PipeEvent, p mangos.Pipe) {
 				b.onReject("hook closed the pipe during Attached")
 			}
 		}
+	case mangos.PipeEventDetached:
+		// a callback that takes its time, while the id allocator's counter
+		// has come round to this very id (as after 2^31 allocations): the id
+		// must stay this pipe's own until the callback has returned
+		if b.slowDetached && !w.Free {
+			hooks.SetNextPipeID(p.ID())
+			w.Probe("slow-detached-callback-with-counter-at-its-id")
+			simrt.Sleep(3 * time.Millisecond)
+		}
 	}
 	e.retAt, e.retSt = w.Now(), w.Step()
 }
@@ -158,6 +168,7 @@ func newCoreBench(w *W, kind string, faultRate int) *coreBench {
 	b.closeAttaching = plan(faultRate)
 	b.closeAttached = plan(faultRate)
 	b.refusePlan = plan(faultRate / 2)
+	b.slowDetached = w.Choose(simrt.SShape, 4) == 0
 	b.s = protocol.MakeSocket(&recProto{ProtocolBase: protoCtors[kind](), b: b})
 	b.s.SetPipeEventHook(b.hook)
 	return b
